@@ -40,6 +40,7 @@ type HistConfig struct {
 	PCwd           float64 // gengo is started in a package directory, not in the module root
 	PClock         float64 // an edit whose file clock is kept, far in the past or in the future; same-size edit motif
 	PProtect       float64 // generated files of a package become read-only, or get clocks from the future / the past
+	Cgo            bool    // one package gets a file that imports "C"
 }
 
 func schedOf(policy string, seed uint64) simrt.Schedule {
@@ -274,6 +275,9 @@ func DrawHistory(r *Rng, cfg HistConfig) (*Scenario, *histWorld) {
 		m, names = DrawRealModule(r, 1)
 		gens = RealGens(names)
 		cfg.PGenFault, cfg.PMute, cfg.PFailAfterEdit, cfg.PGlobals = 0, 0, 0, 0
+	}
+	if cfg.Cgo {
+		AddCgoFile(r, m)
 	}
 	w := &histWorld{m: m, names: names, gens: gens, base: base}
 	sc := &Scenario{Kind: "history", Module: m, Base: base}
@@ -569,7 +573,11 @@ func runHistory(c *CheckCtx, i int, r *Rng, cfg HistConfig) error {
 // SimC06: dispatch of GenerateType/GenerateAliasType/Defer over the tag lattice
 // and declaration kinds, under adversarial map orders.
 func SimC06(c *CheckCtx, i int, r *Rng) error {
-	return runHistory(c, i, r, HistConfig{MinOps: 1, MaxOps: 4, PAll: 0.6, PForce: 0.5, PGlobals: 0.5, PSubsetGens: 0.2, PEdit: 0.1, PRetag: 0.3, PCancel: 0.15, PWarm: 0.05, PTwoPasses: 0.25, PGenFault: 0.15, PProtect: 0.12})
+	cgo := i%50 == 12 && c.Env.CgoUsable()
+	if cgo {
+		c.Env.Stats.Add("probe/cgo-world", 1)
+	}
+	return runHistory(c, i, r, HistConfig{Cgo: cgo, MinOps: 1, MaxOps: 4, PAll: 0.6, PForce: 0.5, PGlobals: 0.5, PSubsetGens: 0.2, PEdit: 0.1, PRetag: 0.3, PCancel: 0.15, PWarm: 0.05, PTwoPasses: 0.25, PGenFault: 0.15, PProtect: 0.12})
 }
 
 // SimC07: gengo only touches its own output files.
